@@ -290,6 +290,75 @@ func c05Scenario(variant int) scenario {
 	}
 }
 
+// c05ProgressScenario: the participant announces a legal sequence of progress states through the production
+// progress cell while two validation threads read it: every read must be one of the announced states (never a
+// mixture), and a message that is acceptable under each announced state must be accepted whenever it is validated.
+func c05ProgressScenario() scenario {
+	table := vfix.Canon(gpbft.PowerEntries{keys.Entry(1, gpbft.NewStoragePower(10), 1), keys.Entry(2, gpbft.NewStoragePower(10), 2), keys.Entry(3, gpbft.NewStoragePower(10), 3)})
+	pt := vfix.PowerTable(table)
+	tc := vfix.TableCID(table)
+	supp := gpbft.SupplementalData{PowerTable: tc}
+	chain := vfix.Chain(vfix.TipSet("g", 1, tc), "v", 1, tc)
+	states := []gpbft.InstanceProgress{
+		{Instant: gpbft.Instant{ID: 5, Round: 3, Phase: gpbft.DECIDE_PHASE}, Input: chain},
+		{Instant: gpbft.Instant{ID: 6, Round: 0, Phase: gpbft.INITIAL_PHASE}},
+		{Instant: gpbft.Instant{ID: 6, Round: 0, Phase: gpbft.QUALITY_PHASE}, Input: chain},
+	}
+	// a PREPARE of round 0 of instance 6: relevant in instance 6 at round 0, and (next instance) while in instance 5
+	p := gpbft.Payload{Instance: 6, Round: 0, Phase: gpbft.PREPARE_PHASE, SupplementalData: supp, Value: chain}
+	sig, _ := keys.Sign(bg, table[0].PubKey, p.MarshalForSigning(vfix.Network))
+	msg := &gpbft.GMessage{Sender: table[0].ID, Vote: p, Signature: sig}
+	same := func(a, b gpbft.InstanceProgress) bool {
+		return a.Instant == b.Instant && a.Input == b.Input
+	}
+	return scenario{
+		name:  "progress cell: participant announces, validators read",
+		names: []string{"P", "V1", "V2"},
+		mk: func() ([]func(), func(vsched.Result) *outcome) {
+			cell := gpbft.VerifNewProgression()
+			cell.Notify(states[0])
+			v := gpbft.VerifNewValidator(vfix.Network, keys, c05env{pt}, cell.Get, 2, 2, 10)
+			var seen [2][]gpbft.InstanceProgress
+			var verdict [2]error
+			writer := func() {
+				cell.Notify(states[1])
+				cell.Notify(states[2])
+			}
+			reader := func(i int) func() {
+				return func() {
+					seen[i] = append(seen[i], cell.Get())
+					_, verdict[i] = v.ValidateMessage(bg, msg)
+					seen[i] = append(seen[i], cell.Get())
+				}
+			}
+			check := func(res vsched.Result) *outcome {
+				if res.Stalled != "" || res.Deadlock != "" {
+					return &outcome{"deadlock", res.Stalled + res.Deadlock}
+				}
+				if len(res.Panics) > 0 {
+					return &outcome{"panic", strings.Join(res.Panics, "; ")}
+				}
+				for i := range seen {
+					for _, got := range seen[i] {
+						ok := false
+						for _, st := range states {
+							ok = ok || same(got, st)
+						}
+						if !ok {
+							return &outcome{"reader-saw-progress-never-announced", fmt.Sprintf("a validation thread read progress %+v (input set: %v), which the participant never announced", got.Instant, got.Input != nil)}
+						}
+					}
+					if verdict[i] != nil {
+						return &outcome{"valid-message-verdict-wrong-under-concurrency", fmt.Sprintf("a message acceptable under every announced progress was rejected while the progress changed: %v", verdict[i])}
+					}
+				}
+				return nil
+			}
+			return []func(){writer, reader(0), reader(1)}, check
+		},
+	}
+}
+
 // ---- C18 ----------------------------------------------------------------------------------------------------
 
 var ps *pubsub.PubSub
@@ -435,7 +504,7 @@ func main() {
 	case "C09":
 		scs = []scenario{c09Scenario(0), c09Scenario(1)}
 	case "C05":
-		scs = []scenario{c05Scenario(0), c05Scenario(1)}
+		scs = []scenario{c05Scenario(0), c05Scenario(1), c05ProgressScenario()}
 	case "C14":
 		runtime.GOMAXPROCS(1) // makes sync.Pool reuse between the two controlled threads deterministic
 		scs = []scenario{c14Scenario()}
